@@ -105,8 +105,11 @@ class G15:
             a = self.fresh("ar")
             x = self.fresh("x")
             return "var %s = (%s) => (%s + %s) %% 9973; log(%d, %s(%s));" % (a, x, x, self.expr(vis), t, a, self.expr(vis))
-        if r < 0.89:
+        if r < 0.87:
             return "log(%d, arguments.length + (arguments.length ? arguments[0] : 0));" % t
+        if r < 0.89:
+            # values rendered by the engine itself (object/function/array stringification, typeof)
+            return "log(%d, String({q: %s}) + '|' + typeof function(){} + '|' + [1, [2, 3]].length + '|' + String(function zzf(){}).length);" % (t, self.expr(vis))
         if r < 0.93:
             # built-in objects are per context: what one program stores on them, or finds there, must
             # not depend on what other contexts of the process did (small shared pool of slot names)
